@@ -526,9 +526,59 @@ def c10(res: Result):
                        "percolate_network (with/without constant removal) on all two-variable and random 3-6 variable networks; TLC checks "
                        "for every state of the subspace and every remaining variable that an up/down transition is enabled iff the update "
                        "function disagrees with the current value in that direction, and that the variables are exactly those left free. "
-                       "Non-trivial: distinct calls on a proper subspace or with >= 4 transitions.")
+                       "Repository models (5-321 variables): per update function over its support (<= 9 variables quick / 12 thorough; larger supports are "
+                       "listed as not covered): the transitions of the variable in the model's Petri net, in the net restricted to percolated random "
+                       "subspaces, and the function in the percolated network are compared with the function's truth table computed from the bnet "
+                       "text by the harness parser; percolation is checked locally (fixed iff the function is constant on the values fixed around it). "
+                       "Non-trivial: distinct calls on a proper subspace or with >= 4 transitions; every model function checked.")
     run_pure(res, tasks, ["Inv_PN", "Inv_RESTRICT", "Inv_PERCNET"], "pn",
              lambda e: len(e["pn"]) >= 4 or any(x != 2 for x in e["sp"]))
+    run_models(res, q, rng, ["Inv_PN", "Inv_PERCNET", "Inv_PERC"])
+
+
+def run_models(res: Result, q: bool, rng, invariants):
+    """repository models, one trace per update function over its support (locality)"""
+    import glob
+    import pure
+    repo = os.environ.get("VERIF_REPO") or "/repo"
+    files = sorted(glob.glob(os.path.join(repo, "models", "bbm-bnet-inputs-true", "*.bnet")))
+    if q:
+        files = rng.sample(files, 24)
+    tasks = [{"path": f, "seed": rng.randrange(1 << 30), "max_local": 9 if q else 12, "subspaces": 2 if q else 4} for f in files]
+    wd = os.path.join(sdcheck.WORK, res.pid, "models")
+    shutil.rmtree(wd, ignore_errors=True)
+    os.makedirs(wd)
+    tf = os.path.join(wd, "traces.ndjson")
+    info = pure.record_models(tasks, tf)
+    out = tlc.validate_traces(tf, "PureTrace", invariants + ["Inv_RAISED", "Inv_UNKNOWN"], wd)
+    res.cov["traces_validated_against_impl"] += out["traces"]
+    res.cov["states"] += out["states"]
+    res.cov["transitions"] += out["generated"]
+    res.cov["model_files"] = len(files)
+    res.cov["model_functions_checked"] = info["traces"]
+    res.cov["model_functions_not_covered"] = [x["skipped"] for x in info["skipped"]][:80]
+    res.cov["model_functions_not_covered_count"] = len(info["skipped"])
+    res.cov["evaluations"] += info["traces"]
+    res.cov["distinct_nontrivial"] += info["traces"]
+    by = {}
+    for (inv, tid, l, op) in out["violations"]:
+        by.setdefault(tid, []).append((inv, l, op))
+    if by:
+        traces = {}
+        for ln in open(tf):
+            t = json.loads(ln)
+            if t["tid"] in by:
+                traces[t["tid"]] = t
+        for k, (tid, vs) in enumerate(sorted(by.items())):
+            if k >= 15:
+                break
+            vd = os.path.join(sdcheck.WORK, res.pid, "violations", "model_" + tid.replace(":", "_").replace(".", "_"))
+            os.makedirs(vd, exist_ok=True)
+            json.dump(traces[tid], open(os.path.join(vd, "trace.json"), "w"))
+            json.dump({"property": res.pid, "engine": "pure-models", "function": tid,
+                       "failing": [{"invariant": i, "event": l, "op": o} for (i, l, o) in vs]},
+                      open(os.path.join(vd, "verdict.json"), "w"), indent=1)
+            res.violations.append(vd)
 
 
 def c11(res: Result):
@@ -673,6 +723,11 @@ def c13(res: Result):
                           profiles=["sparse", "modular"])
     tasks += gadget_tasks("g", [[{"op": "seeds", "n": 1}], [{"op": "sets", "n": 1}], [{"op": "build"}],
                                 [FULL_BFS, {"op": "allseeds"}], [{"op": "exp", "n": 1}, {"op": "skiprem"}, {"op": "allseeds"}]])
+    # a large simulation budget (the doubling loop of the simulation minification must still stop)
+    big = {"maxm": 100000, "candlim": 100000, "rsthr": 1000, "simbudget": 100000, "nfvsthr": 2000}
+    for name in ("latch", "xnor2", "xor2", "c14", "negring3"):
+        tasks.append({"tid": f"b{name}", "tt": gen.gadget_networks()[name], "cfg": big, "timeout": 60.0,
+                      "ops": [{"op": "cand", "n": 1}, {"op": "exp", "n": 1}, {"op": "cand", "n": 1}], "meta": "large simulation budget"})
     invs = ["Inv_HANG", "Inv_LOOP", "Inv_WORK"]
     res.cov["rule"] = ("(1) TLC checks Termination of the AttractorTest model (interleaved forward/backward saturation) for every pivot, every avoid set "
                        "and every answer of the symbolic-size oracle on all two-variable networks (thorough: + a catalogue of 3-variable networks), "
@@ -813,6 +868,10 @@ def c16(res: Result):
             target[0] = 0
         ops += [{"op": "control", "target": target, "strategy": "internal", "sonly": False}, {"op": "bfs", "n": 1, "lvl": -1, "size": -1}, {"op": "allseeds"}]
         t = {"kind": "transp", "tid": f"t{i}", "tt": tt, "ops": ops, "inserts": ["pickle", "reclaim"]}
+        if i % 3 == 1:
+            # non-default configuration: limits that the history runs into must survive the round trip
+            t["cfg"] = {"maxm": rng.choice([1, 2, 3]), "candlim": rng.choice([1, 2, 100000]), "rsthr": rng.choice([1, 1000]),
+                        "simbudget": rng.choice([0, 1000]), "nfvsthr": rng.choice([0, 2000])}
         if i % 4 == 0:
             # networks built through the AEON API with a non-alphabetical declaration order
             names = bn.names_for(n)
@@ -845,6 +904,9 @@ def c17(res: Result):
                        "sets, minimal trap spaces) and the attractor sets map onto each other; every presentation run is also validated against the "
                        "transformed truth tables by SDTrace. Name sanitization is validated in the C10/C17 pure events. Non-trivial: distinct presentations "
                        "of networks with >= 3 nodes.")
+    # name sanitization (pure events): ASCII punctuation, brackets, collisions after sanitizing, non-ASCII letters and digits
+    ptasks = pure_tasks(rng, q, ["sanitize"], 9 if q else 30, [2, 3, 3, 4], 150 if q else 1500, exhaustive2=False, prefix="s")
+    run_pure(res, ptasks, ["Inv_SANITIZE"], "sanitize", lambda e: e["names_in"] != e["names_out"])
     run_twin(res, tasks, ["Inv_ISO", "Inv_MIN", "Inv_ATTR", "Inv_OUT"], ["Inv_WF", "Inv_C01", "Inv_MinExact", "Inv_PartialFaithful", "Inv_CacheFresh"],
              "sigma", lambda t: len(t["b"][-1]["post"]["nodes"]) >= 3)
 
@@ -873,7 +935,14 @@ def c18(res: Result):
         tt = bn.random_network(rng, n, "modular")
         nsrc = sum(1 for i in range(n) if all(tt[i][s] == ((s >> i) & 1) for s in range(1 << n)))
         if 1 <= nsrc <= 2:
-            tw.append({"kind": "below", "tid": f"b{len(tw)}", "tt": tt})
+            # full BFS, and the default strategies (block expansion with source shortcuts / build)
+            ops = rng.choice([None, None, [{"op": "build"}, {"op": "allsets"}],
+                              [{"op": "block", "maa": True, "optsrc": True, "exact": False, "size": -1}, {"op": "allsets"}],
+                              [{"op": "block", "maa": False, "optsrc": True, "exact": False, "size": -1}, {"op": "allsets"}]])
+            t = {"kind": "below", "tid": f"b{len(tw)}", "tt": tt}
+            if ops:
+                t["ops"] = ops
+            tw.append(t)
     res.cov["rule"] = ("(1) disjoint unions of two 1-3 variable networks under each complete strategy: TLC computes minimal trap spaces and attractors of the "
                        "composed truth tables and checks the library's result (the product structure is a TLC-checked theorem of the definitions); "
                        "(2) networks with 1-2 source variables: for every input valuation the fully expanded diagram of the network with the sources "
@@ -881,11 +950,132 @@ def c18(res: Result):
                        "valuation (Twin relation 'below'), and both runs are validated by SDTrace. The third clause (published models vs an independent "
                        "symbolic computation) is covered only for models whose percolated core is small enough for explicit-state TLC (see DESIGN.md). "
                        "Non-trivial: distinct compositions with >= 2 attractors / valuations with >= 2 nodes.")
+    # structured networks in which fixing an input creates new source variables
+    f3 = bn.from_exprs
+    extra = [f3(5, [lambda s: s[0], lambda s: s[1] or s[0], lambda s: s[2] or s[0], lambda s: s[4] and not s[0], lambda s: s[3]]),
+             f3(4, [lambda s: s[0], lambda s: (s[1] and s[0]) or (s[2] and not s[0]), lambda s: s[2] and s[1], lambda s: not s[3] or s[0]]),
+             f3(4, [lambda s: s[0], lambda s: s[1] or s[0], lambda s: s[2] and (s[1] or not s[0]), lambda s: s[3] and s[2]])]
+    for j, tt in enumerate(extra):
+        for ops in (None, [{"op": "build"}, {"op": "allsets"}], [{"op": "block", "maa": False, "optsrc": True, "exact": False, "size": -1}, {"op": "allsets"}]):
+            t = {"kind": "below", "tid": f"x{j}_{len(tw)}", "tt": tt}
+            if ops:
+                t["ops"] = ops
+            tw.append(t)
     run_twin(res, tw, ["Inv_ISO", "Inv_ATTR"], ["Inv_WF", "Inv_FullExact", "Inv_CacheFresh", "Inv_SetsFresh"], "below",
              lambda t: len(t["b"][-1]["post"]["nodes"]) >= 2)
 
 
 CHECKS = {"C16": c16, "C17": c17, "C18": c18, "C19": c19, "C13": c13, "C06": c06, "C07": c07, "C09": c09, "C10": c10, "C11": c11, "C15": c15, "C01": c01, "C02": c02, "C03": c03, "C04": c04, "C05": c05, "C08": c08, "C12": c12, "C14": c14, "C20": c20}
+
+
+# ------------------------------------------------------------------------------------------------
+# binding self-test (thorough tier): a recorded trace with one corrupted field must be rejected
+# ------------------------------------------------------------------------------------------------
+def binding_selftest(res: Result, trace_file: str, module: str, invariants: list[str], corrupt, label: str, want: int = 20):
+    """corrupt(trace) -> bool (True if it changed something that the invariants must notice)"""
+    wd = os.path.join(sdcheck.WORK, res.pid, "selftest_" + label)
+    shutil.rmtree(wd, ignore_errors=True)
+    os.makedirs(wd)
+    out = os.path.join(wd, "corrupted.ndjson")
+    n = 0
+    with open(out, "w") as f:
+        for ln in open(trace_file):
+            tr = json.loads(ln)
+            if corrupt(tr):
+                f.write(json.dumps(tr) + "\n")
+                n += 1
+                if n >= want:
+                    break
+    if n == 0:
+        raise tlc.TLCFailure(f"binding self-test {label}: nothing to corrupt")
+    r = tlc.validate_traces(out, module, invariants, wd)
+    rejected = len({v[1] for v in r["violations"]})
+    res.cov.setdefault("binding_selftest", []).append({"what": label, "corrupted_traces": n, "rejected": rejected})
+    if rejected != n:
+        raise tlc.TLCFailure(f"binding self-test {label}: only {rejected} of {n} corrupted traces were rejected")
+
+
+def _corrupt_sd_depth(tr):
+    for e in tr["events"][1:]:
+        nodes = e["post"]["nodes"]
+        if len(nodes) >= 2:
+            nodes[-1]["depth"] += 1
+            return True
+    return False
+
+
+def _corrupt_sd_edge(tr):
+    for e in tr["events"][1:]:
+        if e["post"]["edges"] and e["op"] in ("bfs", "dfs", "exp"):
+            e["post"]["edges"] = e["post"]["edges"][1:]
+            return True
+    return False
+
+
+def _corrupt_sd_seed(tr):
+    for e in tr["events"][1:]:
+        for nd in e["post"]["nodes"]:
+            if nd["seeds"]["k"] == 1 and len(nd["seeds"]["v"]) >= 1:
+                nd["seeds"]["v"] = nd["seeds"]["v"] + [nd["seeds"]["v"][0]]
+                return True
+    return False
+
+
+def selftests(res: Result):
+    """run after the property's own workload (thorough tier): the trace files of that workload are corrupted"""
+    base = os.path.join(sdcheck.WORK, res.pid)
+    if res.pid == "C20":
+        binding_selftest(res, os.path.join(base, "tr_meta", "traces.ndjson"), "SDTrace", ["Inv_DEPTHC", "Inv_DepthExact"], _corrupt_sd_depth, "depth+1")
+    if res.pid in ("C02", "C04"):
+        lab = "full" if res.pid == "C02" else "plain"
+        binding_selftest(res, os.path.join(base, "tr_" + lab, "traces.ndjson"), "SDTrace", ["Inv_STRUCT", "Inv_PartialFaithful"], _corrupt_sd_edge, "edge dropped")
+    if res.pid in ("C01", "C12", "C14"):
+        lab = {"C01": "seeds", "C12": "sets", "C14": "cache"}[res.pid]
+        binding_selftest(res, os.path.join(base, "tr_" + lab, "traces.ndjson"), "SDTrace", ["Inv_CacheFresh", "Inv_C01", "Inv_CACHE"], _corrupt_sd_seed, "seed duplicated")
+    if res.pid == "C09":
+        def c(tr):
+            for e in tr["events"]:
+                if e["k"] == "trappist" and len(e["res"]) >= 2 and e["limit"] == -1:
+                    e["res"] = e["res"][:-1]
+                    return True
+            return False
+        binding_selftest(res, os.path.join(base, "pure_solver", "traces.ndjson"), "PureTrace", ["Inv_TRAPPIST"], c, "solution dropped")
+    if res.pid == "C10":
+        def c(tr):
+            for e in tr["events"]:
+                if e["k"] == "pn" and len(e["pn"]) >= 2:
+                    e["pn"] = e["pn"][1:]
+                    return True
+            return False
+        binding_selftest(res, os.path.join(base, "pure_pn", "traces.ndjson"), "PureTrace", ["Inv_PN"], c, "transition dropped")
+    if res.pid == "C11":
+        def c(tr):
+            for e in tr["events"]:
+                if e["k"] == "perc" and any(x != 2 and y == 2 for x, y in zip(e["res1"], e["sp"])):
+                    i = [j for j, (x, y) in enumerate(zip(e["res1"], e["sp"])) if x != 2 and y == 2][0]
+                    e["res1"][i] = 2
+                    return True
+            return False
+        binding_selftest(res, os.path.join(base, "pure_perc", "traces.ndjson"), "PureTrace", ["Inv_PERC"], c, "percolated value dropped")
+    if res.pid == "C07":
+        def c(tr):
+            for e in tr["events"]:
+                if e["fresh"] and not e["skipff"] and e["res"] and any(x["ctl"] and x["ctl"][0] for x in e["res"]):
+                    for x in e["res"]:
+                        if x["ctl"] and x["ctl"][0]:
+                            x["ctl"][0] = x["ctl"][0][1:]
+                            x["ok"] = all(len(st) > 0 for st in x["ctl"])
+                            return True
+            return False
+        binding_selftest(res, os.path.join(base, "ctl_exact", "traces.ndjson"), "ControlTrace", ["Inv_C07", "Inv_FLAG"], c, "override dropped")
+    if res.pid == "C19":
+        def c(tr):
+            for e in tr["b"]:
+                if len(e["post"]["nodes"]) >= 2:
+                    e["post"]["nodes"][-1]["depth"] += 1
+                    return True
+            return False
+        binding_selftest(res, os.path.join(base, "twin_same", "twins.ndjson"), "Twin", ["Inv_POST"], c, "depth changed in one run")
 
 
 def run(pid: str, tier: str, seed: int) -> int:
@@ -898,6 +1088,8 @@ def run(pid: str, tier: str, seed: int) -> int:
                        "harness: truth-table renderer (round-trip self-test), projection, recorder",
                        "networks up to 6 variables; histories up to the stated depth"]
     CHECKS[pid](res)
+    if tier != Q or os.environ.get("VERIF_SELFTEST"):
+        selftests(res)
     return res.finish()
 
 
